@@ -1504,8 +1504,12 @@ get_getter(CPPType *expr_type, string expression,
   ostringstream desc;
   desc << "getter for ";
   if (element != nullptr) {
+    // Describe the element without its initializer, but leave the parse tree
+    // intact: later constant expressions may still refer to its value.
+    CPPExpression *initializer = element->_initializer;
     element->_initializer = nullptr;
     element->output(desc, 0, &parser, false);
+    element->_initializer = initializer;
     desc << ";";
   } else {
     desc << expression;
@@ -1577,8 +1581,12 @@ get_setter(CPPType *expr_type, string expression,
   ostringstream desc;
   desc << "setter for ";
   if (element != nullptr) {
+    // Describe the element without its initializer, but leave the parse tree
+    // intact: later constant expressions may still refer to its value.
+    CPPExpression *initializer = element->_initializer;
     element->_initializer = nullptr;
     element->output(desc, 0, &parser, false);
+    element->_initializer = initializer;
     desc << ";";
   } else {
     desc << expression;
